@@ -28,7 +28,7 @@ vars == << l, sts, cfgs, aux >>
 Ifcs == 1..8
 
 NoCfg == [own |-> << >>, mtu |-> 0, attrs |-> [wifi |-> 0], data |-> << >>]
-NoAux == [resetLive |-> 0 - 1, resetBytes |-> 0 - 1, fixed |-> << >>, expect |-> {}, mech |-> MInit, mok |-> TRUE]
+NoAux == [resetLive |-> 0 - 1, resetBytes |-> 0 - 1, fixed |-> << >>, expect |-> {}, mech |-> MInit, mok |-> TRUE, floodMax |-> 0 - 1]
 
 TraceInit ==
   /\ l = 1
@@ -238,15 +238,19 @@ TReq ==
 
 (* flood summary: n pairwise distinct Probes, no Query (C19 plateau: the second half of the *)
 (* flood never holds more than the first half did)                                          *)
+FloodSlack == 4     \* a handful of other bounded buffers (a cached property, a record) may have appeared in between
 TFlood ==
   LET ev == Log[l] IN
   /\ ev.e = "flood"
   /\ Chk("C19") => ev.max2 <= ev.max1
+  \* ... nor from one flood to the next, whatever happened in between (what a large flood retained is the bound)
+  /\ Chk("C19") => ((aux[ev.ifc].floodMax >= 0 /\ ev.n >= 10000) => (ev.max1 <= aux[ev.ifc].floodMax + FloodSlack /\ ev.max2 <= aux[ev.ifc].floodMax + FloodSlack))
   /\ Chk("C02") => ev.txs = 0
   /\ (Chk("C19") => TLCSet(2, TLCGet(2) \cup {l}))
   \* the monitor does not follow the observation set through a flood; a Reset must follow
   /\ sts' = [sts EXCEPT ![ev.ifc] = [@ EXCEPT !.havoc = TRUE]]
-  /\ aux' = [aux EXCEPT ![ev.ifc] = [@ EXCEPT !.mok = FALSE]]
+  /\ aux' = [aux EXCEPT ![ev.ifc] = [@ EXCEPT !.mok = FALSE,
+                                            !.floodMax = IF @ < 0 /\ ev.n >= 10000 THEN Max(ev.max1, ev.max2) ELSE @]]
   /\ l' = l + 1
   /\ UNCHANGED cfgs
 
